@@ -68,7 +68,7 @@ theorem valuesOf_err_class (l : List (Option SwComp)) (m : ErrMask) (h : valuesO
   | nil => simp [valuesOf] at h
   | cons x xs ih =>
     cases x with
-    | none => simp [valuesOf] at h
+    | none => simp [valuesOf] at h; exact Or.inr h.symm
     | some sc =>
       simp only [valuesOf] at h
       cases hv : sc.validate with
